@@ -117,9 +117,8 @@ def run(chk):
         for bb, t in co.calls():
             if names.call_is(t, *pats):
                 effects.append((bb, names.strip_generics(core.callee_of(t)).rsplit("::", 2)[-2] + "::" + core.callee_of(t).rsplit("::", 1)[-1].split("<")[0]))
-        for s in flow.outcome_sites(co):
-            if s["path"] == () and s["kind"] == "Ok":
-                effects.append((s["bb"], "return Ok"))
+        for okb in flow.ok_sites(p, co, T):
+            effects.append((okb, "return Ok"))
         chk.require("R1 consent dominates effects", "R1|%s|effects" % nm, len(effects) >= 4, where(co), "too few effect sites found: %s" % effects)
         for bb, what in effects:
             cut = flow.cut_by_edges(co, 0, [bb], [ok_edge])
